@@ -161,6 +161,21 @@ func c12Fields(c *Ctx, reach map[*ssa.Function]bool) {
 				fmt.Sprintf("%s(%s (side %d), %s (side %d))", c.fname(callee), x, sx, y, sy), "one operand from each RA, the same field on both sides",
 				"a field of one RA is compared with itself or with a different field of the other RA")
 		}
+		// slices.Equal(x.F, y.F) compares the lengths and every element pair
+		for _, ci := range an.CallsIn(fn) {
+			fo := an.CalleeObj(ci.Common())
+			if fo == nil || fo.Pkg() == nil || fo.Pkg().Path() != "slices" || fo.Name() != "Equal" || len(ci.Common().Args) != 2 {
+				continue
+			}
+			x, y := c.XO.Of(ci.Common().Args[0]), c.XO.Of(ci.Common().Args[1])
+			sx, sy := sideOf(x), sideOf(y)
+			fx, fy := terminalField(x), terminalField(y)
+			got["len("+fx+")"] = true
+			got[fx+"[]"] = true
+			c.R.Check(sx >= 0 && sy >= 0 && sx != sy && fx == fy, "R-C12-2", fmt.Sprintf("%s:compares:%s[]", name, fx), name, c.pos(ci.Pos()),
+				fmt.Sprintf("slices.Equal(%s (side %d), %s (side %d))", x, sx, y, sy), "one operand from each RA, the same field on both sides",
+				"a field of one RA is compared with itself or with a different field of the other RA")
+		}
 		var gk []string
 		for k := range got {
 			gk = append(gk, k)
